@@ -1,12 +1,14 @@
 //! `oalimpl <layer>`: runs the real oal crates (built from /repo's working tree with
 //! `--cfg oal_verif`) on the cases read from stdin, one canonical result line per case.
 mod l_pos;
+mod l_unify;
 
 fn main() {
     let args: Vec<String> = std::env::args().collect();
     let layer = args.get(1).map(|s| s.as_str()).unwrap_or("");
     match layer {
         "pos" => l_pos::run(),
+        "unify" => l_unify::run(),
         _ => {
             eprintln!("usage: oalimpl <layer>");
             std::process::exit(2);
